@@ -3,6 +3,8 @@ from __future__ import annotations
 
 import itertools
 
+import os
+
 from hypothesis import strategies as st
 
 from .. import vlog
@@ -82,6 +84,15 @@ def source_text(case):
             "mixed": (1, 0), "true": (-5, -10), "false": (10, 5), "zero": (1, -1)}[sat])
     for i in case["order"]:
         refs = adj[i]
+        if case.get("lib") == "builtin" and case.get("printvars") is not None:
+            # side-effect commands take part in cycles too: PrintVars accepts any result, also another PrintVars
+            items = [name(c) for c in refs]
+            items.insert((case.get("poff", 0) + i) % (len(refs) + 1), "Fz" if case.get("fuzzy") else "Src")
+            out = ""
+            if case["printvars"] >> i & 1:
+                out = ', OutFileName = "%s"' % os.path.join(os.path.dirname(case.get("csv", "/nonexistent.csv")), "printed_%d.txt" % i).replace("\\", "/")
+            lines.append("%s = PrintVars(InFieldNames = [%s]%s)" % (name(i), ", ".join(items), out))
+            continue
         if case.get("lib") == "builtin":
             fuzzy = case.get("fuzzy")
             base = "Fz" if fuzzy else "Src"
@@ -258,6 +269,10 @@ def small_graphs(ctx):
                 for order in orders:
                     yield {"n": n, "adj": adj, "kinds": kinds, "order": list(order), "lib": "testlib", "pick": bits + len(kinds[0])}
             if n <= 2 or bits % 7 == 0:
+                for outs in range(1 << n):
+                    for poff in range(n + 1):
+                        yield {"n": n, "adj": adj, "kinds": None, "order": list(range(n)), "lib": "builtin", "fuzzy": bool(outs & 1),
+                               "pick": 0, "poff": poff, "printvars": outs, "sat": "mixed"}
                 k = 0
                 for fuzzy in (False, True):
                     for pick in range(3):
@@ -302,7 +317,8 @@ def larger_graphs(draw):
     order = list(draw(st.permutations(list(range(n)))))
     lib = draw(st.sampled_from(["testlib", "testlib", "testlib", "builtin"]))
     return {"n": n, "adj": adj, "kinds": kinds, "order": order, "lib": lib, "fuzzy": draw(st.booleans()), "pick": draw(st.integers(0, 9)),
-            "voff": draw(st.integers(0, 6)), "poff": draw(st.integers(0, 5)), "sat": draw(st.sampled_from(["mixed", "true", "false", "zero"]))}
+            "voff": draw(st.integers(0, 6)), "poff": draw(st.integers(0, 5)), "sat": draw(st.sampled_from(["mixed", "true", "false", "zero"])),
+            "printvars": draw(st.sampled_from([None, None, None, 0, 1, 5, 31, 10]))}
 
 
 PARTS = {"graph": check_case}
